@@ -82,6 +82,8 @@ pub struct Profile {
     pub p_perfect: u64,
     /// bias towards instants that coincide with schedule boundaries (slots, deadlines), +-1 ns
     pub p_align: u64,
+    /// requests issued back to back (same instant or 1 ns apart)
+    pub p_burst: u64,
 }
 
 impl Profile {
@@ -129,6 +131,7 @@ impl Profile {
             p_swarm_off: 300,
             p_perfect: 50,
             p_align: 120,
+            p_burst: 60,
         }
     }
 }
@@ -1608,10 +1611,13 @@ impl<'a> World<'a> {
                         // the boundary itself: exactly ten minutes is not "more than ten minutes"
                         4 => *rng.pick(&[600 * SEC, 600 * SEC + 1, 600 * SEC - 1]),
                         0 => 600 * SEC + rng.range(0, 2 * MS) - MS,
-                        1 => 600 * SEC + 1 + rng.below(SEC),
+                        1 => 600 * SEC + 1 + rng.below(40 * SEC),
                         2 => 600 * SEC - rng.below(SEC),
                         _ => rng.log_range(600 * SEC, 5000 * SEC),
                     }
+                } else if rng.chance(p.p_burst, 1000) {
+                    // back to back with the previous action: the same instant, or one nanosecond later
+                    rng.below(2)
                 } else if rng.chance(p.p_align, 1000) {
                     // start this request a whole number of RTOs after the previous one, so that retransmission
                     // slots and deadlines of concurrent requests coincide (or miss each other by one nanosecond)
